@@ -17,7 +17,7 @@ RULE = ("cases = (first message: CONNECT with a handshake payload shape x valida
         "at least one INVOKE follows the first message")
 ASSUMPTIONS = ["for an unknown serializer id or an exception whose __str__ raises the statement promises no reason: only 'nothing ran' and 'closed' are required",
                "pre-connected socket pairs are exempt and not exercised", "'is closed' = EOF/RST observed within a 10 s watchdog"]
-REQUIRED_REACH = ["refused_ok", "accepted_ok", "pipelined_invokes_sent", "validator_raised", "wrong_first_type", "unknown_object", "malformed_first"]
+REQUIRED_REACH = ["reused_tickets_refused", "refused_ok", "accepted_ok", "pipelined_invokes_sent", "validator_raised", "wrong_first_type", "unknown_object", "malformed_first"]
 SHARD_TIMEOUT = {"quick": 240, "thorough": 2800}
 
 
@@ -69,6 +69,9 @@ def make_env(P, servertype):
     fx = fixture.Fixture(servertype=servertype, interface=LoggingDaemonObject, COMMTIMEOUT=0.0)
     fx.register(Marker(), "marker")
 
+    used_tickets = set()
+    fx.used_tickets = used_tickets
+
     def validator(conn, data):
         d = data if isinstance(data, dict) else {}
         log.add("validator", d.get("token"))
@@ -79,6 +82,12 @@ def make_env(P, servertype):
             return {"k": [1, 2, "é"]}
         if mode == "accept-unserialisable":
             return threading.Lock()
+        if mode.startswith("ticket:"):
+            # a validator whose decision depends on history, not only on the handshake bytes: one-time tickets
+            if mode in used_tickets:
+                raise PermissionError("ticket already used: " + mode)
+            used_tickets.add(mode)
+            return "ticket accepted"
         if mode.startswith("raise:"):
             key = mode[6:]
             mk = RAISERS.get(key)
@@ -109,6 +118,11 @@ def gen_case(r, n):
         c["first"] = "connect"
         c["mode"] = "accept-unserialisable"
         c["objid"] = "marker"
+    elif k < 0.3:
+        c["first"] = "connect"
+        c["mode"] = "ticket:%d" % r.randrange(12)
+        c["objid"] = "marker"
+        c["token"] = "tkt"          # the handshake payload is byte-identical whenever the same ticket is presented again
     elif k < 0.45:
         c["first"] = "connect"
         c["mode"] = "raise:" + r.choice(sorted(RAISERS))
@@ -190,6 +204,8 @@ def first_bytes(P, c, r):
 
 
 def expect_accept(c):
+    if c["first"] == "connect" and c.get("mode", "").startswith("ticket:"):
+        return c.get("ticket_fresh", False)
     return c["first"] == "connect" and c.get("mode") in ("accept", "accept-data") and c.get("objid") in ("marker", "Pyro.Daemon")
 
 
@@ -202,6 +218,8 @@ def run_case(fx, log, c, rec, r):
     P = fx.P
     ser = P.serializers.serializers[c["ser"]]
     log.clear()
+    if c.get("mode", "").startswith("ticket:"):
+        c = dict(c, ticket_fresh=c["mode"] not in fx.used_tickets)
     nontrivial = (c["pipelined"] + c["after"]) > 0
     rec.case(tuple(sorted((k, repr(v)) for k, v in c.items() if k != "token")) + (fx.servertype,), nontrivial=nontrivial,
              sample=dict(c, servertype=fx.servertype) if rec.evaluations % 250 == 3 else None)
@@ -294,7 +312,7 @@ def run_case(fx, log, c, rec, r):
     if execs:
         rec.violation("executed-without-handshake", "first message %s; no CONNECTOK was sent, yet the daemon executed %r" % (describe(c), [e[2:] for e in execs]), pay)
         return
-    if c["first"] == "connect" and c.get("mode", "").startswith("raise:") and metas:
+    if c["first"] == "connect" and c.get("mode", "").startswith(("raise:", "ticket:")) and metas:
         rec.violation("metadata-before-validator", "the validator raised but get_metadata ran: %r" % (events,), pay)
         return
     if c["first"] != "connect" and metas and c["first"] != "connect-shape" and c["first"] != "serializer":
@@ -317,6 +335,8 @@ def run_case(fx, log, c, rec, r):
         named = None        # str(exception) itself raises: no reason can be promised, only 'nothing ran' and 'closed'
     elif c["first"] == "connect" and c.get("mode", "").startswith("raise:"):
         named = "validator_raised"
+    elif c["first"] == "connect" and c.get("mode", "").startswith("ticket:"):
+        named = "validator_raised_ticket"
     elif c["first"] == "connect" and c.get("mode") == "accept" and isinstance(c.get("objid"), str):
         named = "unknown_object"
     if named:
@@ -339,6 +359,8 @@ def run_case(fx, log, c, rec, r):
                     want = str(mk()) if mk else key.partition(":")[2]
                 except Exception:
                     want = None
+        elif named == "validator_raised_ticket":
+            want = "ticket already used"
         elif named == "unknown_object":
             want = "unknown object"
         elif named == "wrong_first_type":
@@ -346,14 +368,16 @@ def run_case(fx, log, c, rec, r):
         if want is not None and (not isinstance(reason, str) or want not in reason):
             rec.violation("connectfail-without-reason", "first message %s: CONNECTFAIL reason %r does not carry %r" % (describe(c), reason, want), pay)
             return
-        rec.count(named)
+        rec.count("validator_raised" if named == "validator_raised_ticket" else named)
+        if named == "validator_raised_ticket":
+            rec.count("reused_tickets_refused")
     elif c["first"] == "malformed":
         rec.count("malformed_first")
     rec.count("refused_ok")
 
 
 def classify_accept(c):
-    return "handshake-accepted-wrongly:" + ("validator-raised" if c.get("mode", "").startswith("raise:") else c["first"])
+    return "handshake-accepted-wrongly:" + ("validator-raised" if c.get("mode", "").startswith(("raise:", "ticket:")) else c["first"])
 
 
 def describe(c):
